@@ -101,7 +101,8 @@ PowLadder(x, y, m) ==
   ELSE IF x.neg /\ ~IsInteger(y) THEN Val(NanNew(Cause2("Pow", x, y)))
   ELSE LET pt == PowTen(x)
            neg == x.neg /\ IsOddInt(y)
-       IN IF pt[1] /\ ~y.neg /\ IsInteger(y) THEN
+       IN IF pt[1] /\ pt[2] = 0 /\ IsInteger(y) THEN Val(OneV(neg))           \* (-1)^n = +-1 exactly, negative n included
+          ELSE IF pt[1] /\ ~y.neg /\ IsInteger(y) THEN
              (IF IsSmallInt(y) THEN Rnd(neg, One, One, pt[2] * SmallInt(y))
               ELSE IF pt[2] > 0 THEN Val(InfV(neg))                            \* |exponent| astronomically large
               ELSE IF pt[2] = 0 THEN Val(OneV(neg)) ELSE Val(ZeroV(neg)))
